@@ -8,7 +8,7 @@ HERE = os.path.dirname(os.path.dirname(os.path.abspath(__file__)))
 # id -> (engine, level, technique, level text, level note, design section)
 CHECKS = {
  "C01": ("dbsim", "exploration", "deterministic simulation (seeded sequential histories, background work at operation boundaries) against an executable reference model",
-         "Seeded sequential histories of Set/SetReader/Create/Get/GetReader/GetKeys/Delete over 2-5 keys (ASCII, multi-byte, long; contents around the 2048-byte chunk and 32 KiB buffer boundaries) run on a whole inline database inside the simulator; after every operation the result (bytes, error class) and a full read-back of all keys is compared with a ~200-line reference model. Fault kinds on top: nearly full disks, the caller's context (per-call contexts cancelled on return, calls with an already cancelled context), content readers that are read only several operations after they were handed out. Exploration: a clean batch is evidence over the sampled histories, not a proof.",
+         "Seeded sequential histories of Set/SetReader/Create/Get/GetReader/GetKeys/Delete over 2-5 keys (ASCII, multi-byte, long; contents around the 2048-byte chunk and 32 KiB buffer boundaries) run on a whole inline database inside the simulator; after every operation the result (bytes, error class) and a full read-back of all keys is compared with a ~200-line reference model. Fault kinds on top: nearly full disks, the caller's context (per-call contexts cancelled on return, calls with an already cancelled context), content readers that are read only several operations after they were handed out, created files whose remaining writes and Close come several operations later, size-aware sources of which a prefix was consumed, contents with runs of zero bytes. Exploration: a clean batch is evidence over the sampled histories, not a proof.",
          "real: store/transaction/cleaner/dir use cases, version lists, Badger, content files, worker pool; simulated: scheduler, clock, disk-usage report, random ids. Trusted: Badger, Go runtime, kernel FS.", "4/C01"),
  "C02": ("dbsim", "exploration", "deterministic simulation of sequential multi-transaction histories against a reference model of the four isolation levels, GC injected at every boundary",
          "One driver interleaves up to 6 open transactions of all four levels plus autocommit calls; after every step every open transaction and the autocommit caller read every key and GetKeys, each answer compared with the reference model; the collector (direct call and simulated GC timer) fires at seeded operation boundaries; a deep-chain profile builds hundreds of versions per key; per-call and dead caller contexts and held-open readers as in C01.",
@@ -22,8 +22,8 @@ CHECKS = {
  "C05": ("dbsim+crashsim", "exploration", "deterministic simulation of histories with Close/Open at seeded positions and several databases per process; process-boundary segments run by fresh child processes",
          "Histories as C01-C03 with Close/Open inserted, transactions left open across Close, up to 3 database directories opened in one process in any order (sharing the process-global sequence counter), the same histories cut into segments executed by fresh processes, and databases opened while a second client writes to another open one under a seeded concurrent schedule; the reference model is carried across reopen and a final fresh-process open checks that later writes keep winning; bulk cases hold hundreds to 2400 records across reopenings.",
          "as C01.", "4/C05"),
- "C06": ("dbsim", "exploration", "deterministic simulation: seeded schedules (uniform with stickiness up to 0.99, PCT, one stalled client) of 2-4 concurrent clients plus GC/cleaner actors; linearizability of the recorded call/return history checked with porcupine against the reference model; deadlock and panic detectors",
-         "2-4 clients issue autocommit operations and RU/RC transactions on 2-3 shared keys while the GC timer and cleaner jobs run; every decision point (lock acquire and release, atomic, channel, timer, IO) is a scheduler choice; the history (stamped with global event numbers) is checked for a linearization with porcupine, plus direct lost/resurrected/missing-key rules, deadlock and panic detection; a third of the programs give every call its own context, cancelled on return; some programs start on a database that has never published anything.",
+ "C06": ("dbsim", "exploration", "deterministic simulation: seeded schedules (uniform with stickiness up to 0.99, PCT, one client stalled once or twice, one client stretched at every step of one kind) of 2-4 concurrent clients plus GC/cleaner actors; linearizability of the recorded call/return history checked with porcupine against the reference model; deadlock and panic detectors",
+         "2-4 clients issue autocommit operations and RU/RC transactions on 2-3 shared keys while the GC timer and cleaner jobs run; every decision point (lock acquire and release, atomic, channel, timer, IO) is a scheduler choice; the history (stamped with global event numbers) is checked for a linearization with porcupine, plus direct lost/resurrected/missing-key rules, deadlock and panic detection; a third of the programs give every call its own context, cancelled on return; some programs start on a database that has never published anything; templates: transactions ending while others make their first write, two clients ending one transaction through a shared handle, pollers listing keys while a writer adds them; a fifth of the programs go through the external client over the simulated transport.",
          "interleavings at the granularity of synchronisation/atomic/IO operations; C15 checks data-race freedom separately. Badger, Go runtime trusted.", "4/C06"),
  "C07": ("dbsim", "exploration", "deterministic simulation of concurrently committing snapshot transactions under seeded schedules; history rule: overlapping snapshot writers of one key => at most one commit succeeds",
          "2-3 RR/SER transactions begun before the concurrent phase with intersecting write sets plus autocommit writers commit concurrently under seeded schedules; checked: at most one winner among overlapping writers of a key, losers fail with ErrTxSerialization and leave nothing visible, winners' values are in place at quiescence; one program in seven starts on an empty database.",
